@@ -94,7 +94,12 @@ def roundtrip(ctx, dn, directed, idkind, delim, enc, target, big=False):
         elif tgt.opened:
             # files the library opened for a path target must be closed when the call returns
             ctx.expect("path-target-closed", tgt.left_open, [], cfg)
-        rows, trailing = iohelp.rows_of(tgt.data(), enc, delim)
+        try:
+            rows, trailing = iohelp.rows_of(tgt.data(), enc, delim)
+        except (OSError, EOFError, UnicodeError, ValueError) as ex:
+            # e.g. a '.gz' target that does not hold gzip data, or bytes that are not in the requested encoding
+            ctx.violation("file:unreadable", dict(cfg, exception=repr(ex)))
+            return
         ctx.expect("rows:newline-terminated", trailing, "", cfg)
         ctx.expect("rows==stream", rows, [tuple(str(x) for x in ev) for ev in stream], cfg)
         if big:
